@@ -63,13 +63,20 @@ TEXT = {
           "C13_isFull: a normal form containing every real is the single interval (-inf,+inf)); a count reported by "
           "lp_interval_count_int is the number of integers in the interval (C13_countInt: closed integer ends plus the integers m..n "
           "strictly inside, disjoint), and so is a count reported for a whole set in normal form (C13_set_countInt: fold invariant, the "
-          "integer sets of separated intervals are disjoint). Status bits, normal form of intersections, the saturation of counts "
+          "integer sets of separated intervals are disjoint); the status of an intersection is right about what it reports - S1 only when "
+          "the result is the first operand interval by interval, S2 only when it denotes the second, EMPTY only for the empty result, NEW "
+          "only for a non-empty one (C13_intersect_status, through the flag lemmas intersectLoop_all1 / _all2) - and the result of the "
+          "sweep is again a list of non-empty, increasing, pairwise disjoint intervals (C13_intersect_nf, sweep invariant), and for operands "
+          "in normal form it is in the same normal form - well-formed intervals with gaps that cannot be closed (C13_intersect_nfs; "
+          "cwi_bounds: the piece handed back starts at the later lower bound and ends at the earlier upper bound), so the theorems "
+          "about normal forms apply to everything built by unions and intersections. The converse "
+          "of the status (NEW never reported for a result equal to an operand), the saturation of counts "
           "and picking are tied by correspondence only (exhaustive over all "
           "128x128 normal-form sets on the atoms of {0,1,2}, 512x512 in the thorough tier, plus random pools with algebraic end points, "
           "half of them handed over with the unrefined isolating interval of the root isolation; pick / contains_int / count_int also on "
           "every interval separately).",
   "design_ref": "5.13",
-  "note": "status bits, normal form of intersections, integer counts and value picking are correspondence only; algebraic end points enter the model as order-isomorphic dyadic surrogates chosen by the harness",
+  "note": "the converse of the intersection status, the saturation of counts and value picking are correspondence only; algebraic end points enter the model as order-isomorphic dyadic surrogates chosen by the harness",
   "technique": "Lean 4 proof over mirror model + exhaustive/differential correspondence harness",
  },
  "C20": {
